@@ -116,12 +116,48 @@ pub fn library_run(src: &str, filename: &str) -> Expected {
     Expected { stdout: out, code, p, re, rt, class: if rt != 0 { "rt" } else { "ok" } }
 }
 
-fn facts_of(src: &str) -> Option<(usize, usize, usize, &'static str)> {
-    util::catch(|| {
-        let e = library_run(src, "<facts>");
-        (e.p, e.re, e.rt, e.class)
-    })
-    .ok()
+fn class_static(c: &str) -> &'static str {
+    match c {
+        "parse" => "parse",
+        "static" => "static",
+        "rt" => "rt",
+        "ok" => "ok",
+        _ => "?",
+    }
+}
+
+/// The reference in a fresh process of its own (`nvh cli expect <filename> <hex>`): a process-global
+/// cache inside the library must not be able to pollute the reference through earlier cases.
+fn expect_child(me: &std::path::Path, filename: &str, src: &str) -> (Result<Expected, String>, f64) {
+    let mk = || {
+        let mut cmd = Command::new(me);
+        cmd.args(["cli", "expect", filename, &util::hex(src.as_bytes())]);
+        cmd
+    };
+    let o = run_child(mk, None, 3.0 * BASE_TIMEOUT_S);
+    if o.timed_out {
+        return (Err("the library pipeline did not finish".to_string()), o.elapsed_s);
+    }
+    let text = String::from_utf8_lossy(&o.stdout).trim().to_string();
+    let parse = || -> Option<Expected> {
+        let rest = text.strip_prefix("code=")?;
+        let (code, rest) = rest.split_once(" class=")?;
+        let (class, rest) = rest.split_once(" facts=")?;
+        let (facts, out) = rest.split_once(" stdout=")?;
+        let f: Vec<usize> = facts.split(' ').filter_map(|x| x.parse().ok()).collect();
+        Some(Expected {
+            stdout: util::unhex(out)?,
+            code: code.parse().ok()?,
+            p: *f.first()?,
+            re: *f.get(1)?,
+            rt: *f.get(2)?,
+            class: class_static(class),
+        })
+    };
+    match parse() {
+        Some(e) => (Ok(e), o.elapsed_s),
+        None => (Err(if text.is_empty() { format!("died with {:?}", o.code) } else { text }), o.elapsed_s),
+    }
 }
 
 // ------------------------------------------------------------------------------------------------
@@ -253,8 +289,8 @@ fn expect_cmd(args: &[String]) -> i32 {
     util::silence_panics();
     let (mut w, _keep) = hide_stdout();
     let filename = match mode.as_str() {
-        "eval" => "<eval>".to_string(),
-        "stdin" => "<stdin>".to_string(),
+        "eval" | "<eval>" => "<eval>".to_string(),
+        "stdin" | "<stdin>" => "<stdin>".to_string(),
         other => other.to_string(),
     };
     match util::catch(|| library_run(&src, &filename)) {
@@ -486,60 +522,90 @@ struct ChildOut {
     elapsed_s: f64,
 }
 
-fn run_child(mut cmd: Command, input: Option<Vec<u8>>, timeout_s: f64) -> ChildOut {
+fn pool<T: Send>(jobs: usize, total: usize, f: impl Fn(usize) -> T + Sync) -> Vec<T> {
+    let results: Vec<Mutex<Option<T>>> = (0..total).map(|_| Mutex::new(None)).collect();
+    let next = AtomicUsize::new(0);
+    std::thread::scope(|s| {
+        for _ in 0..jobs.max(1) {
+            s.spawn(|| {
+                loop {
+                    let k = next.fetch_add(1, Ordering::SeqCst);
+                    if k >= total {
+                        break;
+                    }
+                    *results[k].lock().unwrap() = Some(f(k));
+                }
+            });
+        }
+    });
+    results.into_iter().map(|m| m.into_inner().unwrap().unwrap()).collect()
+}
+
+/// Runs the command built by `mk`; a time-out must reproduce three times in a row before it is
+/// believed (a loaded machine can stall a child once).
+fn run_child(mk: impl Fn() -> Command, input: Option<Vec<u8>>, timeout_s: f64) -> ChildOut {
     if TIMEOUTS.load(Ordering::SeqCst) >= MAX_TIMEOUTS {
         return ChildOut { stdout: Vec::new(), stderr: Vec::new(), code: None, timed_out: true, limit_s: 0.0, elapsed_s: 0.0 };
     }
-    let t0 = std::time::Instant::now();
-    cmd.stdout(Stdio::piped()).stderr(Stdio::piped());
-    cmd.stdin(if input.is_some() { Stdio::piped() } else { Stdio::null() });
-    let mut child = cmd.spawn().expect("spawn child");
-    let pid = child.id();
-    if let Some(inp) = input {
-        let mut si = child.stdin.take().unwrap();
-        let _ = si.write_all(&inp);
-        drop(si);
-    }
-    let (tx, rx) = std::sync::mpsc::channel();
-    std::thread::spawn(move || {
-        let _ = tx.send(child.wait_with_output());
-    });
-    let (out, timed_out) = match rx.recv_timeout(std::time::Duration::from_secs_f64(timeout_s)) {
-        Ok(o) => (o, false),
-        Err(_) => {
-            TIMEOUTS.fetch_add(1, Ordering::SeqCst);
-            unsafe { libc::kill(pid as i32, libc::SIGKILL) };
-            (rx.recv().unwrap(), true)
+    let mut last = None;
+    for _attempt in 0..3 {
+        let t0 = std::time::Instant::now();
+        let mut cmd = mk();
+        cmd.stdout(Stdio::piped()).stderr(Stdio::piped());
+        cmd.stdin(if input.is_some() { Stdio::piped() } else { Stdio::null() });
+        let mut child = cmd.spawn().expect("spawn child");
+        let pid = child.id();
+        if let Some(inp) = &input {
+            let mut si = child.stdin.take().unwrap();
+            let _ = si.write_all(inp);
+            drop(si);
         }
-    };
-    let out = out.expect("wait child");
-    ChildOut {
-        stdout: out.stdout,
-        stderr: out.stderr,
-        code: out.status.code(),
-        timed_out,
-        limit_s: timeout_s,
-        elapsed_s: t0.elapsed().as_secs_f64(),
+        let (tx, rx) = std::sync::mpsc::channel();
+        std::thread::spawn(move || {
+            let _ = tx.send(child.wait_with_output());
+        });
+        let (out, timed_out) = match rx.recv_timeout(std::time::Duration::from_secs_f64(timeout_s)) {
+            Ok(o) => (o, false),
+            Err(_) => {
+                unsafe { libc::kill(pid as i32, libc::SIGKILL) };
+                (rx.recv().unwrap(), true)
+            }
+        };
+        let out = out.expect("wait child");
+        let r = ChildOut {
+            stdout: out.stdout,
+            stderr: out.stderr,
+            code: out.status.code(),
+            timed_out,
+            limit_s: timeout_s,
+            elapsed_s: t0.elapsed().as_secs_f64(),
+        };
+        if !timed_out {
+            return r;
+        }
+        last = Some(r);
     }
+    TIMEOUTS.fetch_add(1, Ordering::SeqCst);
+    last.unwrap()
 }
 
 fn run_binary(naija: &str, mode: &str, src: &str, file_path: &str, timeout_s: f64) -> ChildOut {
-    let mut cmd = Command::new(naija);
     let mut input = None;
     match mode {
-        "file" => {
-            std::fs::write(file_path, src).unwrap();
-            cmd.arg(file_path);
-        }
-        "eval" => {
-            cmd.arg(format!("--eval={src}"));
-        }
-        _ => {
-            cmd.arg("-");
-            input = Some(src.as_bytes().to_vec());
-        }
+        "file" => std::fs::write(file_path, src).unwrap(),
+        "eval" => {}
+        _ => input = Some(src.as_bytes().to_vec()),
     }
-    run_child(cmd, input, timeout_s)
+    let mk = || {
+        let mut cmd = Command::new(naija);
+        match mode {
+            "file" => cmd.arg(file_path),
+            "eval" => cmd.arg(format!("--eval={src}")),
+            _ => cmd.arg("-"),
+        };
+        cmd
+    };
+    run_child(mk, input, timeout_s)
 }
 
 /// `nvh cli seqrun <hex1>|<hex2>|…`: the playground replica on the sequence, twice, in this one
@@ -625,33 +691,13 @@ fn run(args: &[String]) -> i32 {
         "eval" => "<eval>".to_string(),
         _ => "<stdin>".to_string(),
     };
-    let mut lib_cache: HashMap<(String, String), (Result<Expected, String>, f64)> = HashMap::new();
     let mut lib_by_line: HashMap<usize, (Result<Expected, String>, f64)> = HashMap::new();
-    for j in &jobs_cli {
-        let t0 = std::time::Instant::now();
-        let r = util::catch(|| library_run(&j.src, &filename_of(j)));
-        lib_by_line.insert(j.line, (r, t0.elapsed().as_secs_f64()));
+    let refs = pool(jobs, jobs_cli.len(), |k| expect_child(&me, &filename_of(&jobs_cli[k]), &jobs_cli[k].src));
+    for (j, r) in jobs_cli.iter().zip(refs) {
+        lib_by_line.insert(j.line, r);
     }
-    let _ = &mut lib_cache;
+    TIMEOUTS.store(0, Ordering::SeqCst);
     let cli_limits: Vec<f64> = jobs_cli.iter().map(|j| BASE_TIMEOUT_S + 30.0 * lib_by_line[&j.line].1).collect();
-    fn pool<T: Send>(jobs: usize, total: usize, f: impl Fn(usize) -> T + Sync) -> Vec<T> {
-        let results: Vec<Mutex<Option<T>>> = (0..total).map(|_| Mutex::new(None)).collect();
-        let next = AtomicUsize::new(0);
-        std::thread::scope(|s| {
-            for _ in 0..jobs.max(1) {
-                s.spawn(|| {
-                    loop {
-                        let k = next.fetch_add(1, Ordering::SeqCst);
-                        if k >= total {
-                            break;
-                        }
-                        *results[k].lock().unwrap() = Some(f(k));
-                    }
-                });
-            }
-        });
-        results.into_iter().map(|m| m.into_inner().unwrap().unwrap()).collect()
-    }
     let n_cli = jobs_cli.len();
     let phase1 = pool(jobs, n_cli + alone_srcs.len(), |k| {
         if k < n_cli {
@@ -662,9 +708,12 @@ fn run(args: &[String]) -> i32 {
             }
             out
         } else {
-            let mut cmd = Command::new(&me);
-            cmd.args(["cli", "alone", &alone_srcs[k - n_cli]]);
-            run_child(cmd, None, 6.0 * BASE_TIMEOUT_S)
+            let mk = || {
+                let mut cmd = Command::new(&me);
+                cmd.args(["cli", "alone", &alone_srcs[k - n_cli]]);
+                cmd
+            };
+            run_child(mk, None, 3.0 * BASE_TIMEOUT_S)
         }
     });
     TIMEOUTS.store(0, Ordering::SeqCst);
@@ -694,10 +743,13 @@ fn run(args: &[String]) -> i32 {
         if seq_inputs[k].is_empty() {
             return ChildOut { stdout: Vec::new(), stderr: Vec::new(), code: Some(0), timed_out: false, limit_s: 0.0, elapsed_s: 0.0 };
         }
-        let mut cmd = Command::new(&me);
-        cmd.args(["cli", "seqrun", &seq_inputs[k].join("|")]);
+        let mk = || {
+            let mut cmd = Command::new(&me);
+            cmd.args(["cli", "seqrun", &seq_inputs[k].join("|")]);
+            cmd
+        };
         let alone_total: f64 = seq_inputs[k].iter().map(|h| alone_secs[alone_ix[*h]]).sum();
-        run_child(cmd, None, BASE_TIMEOUT_S + 30.0 * 2.0 * alone_total)
+        run_child(mk, None, BASE_TIMEOUT_S + 30.0 * 2.0 * alone_total)
     });
     let mut seq_by_line: HashMap<usize, (Vec<&str>, ChildOut)> = HashMap::new();
     for ((i, inp), out) in seq_lines.iter().zip(seq_inputs.iter()).zip(seq_outs) {
@@ -943,19 +995,19 @@ fn generate(args: &[String]) -> i32 {
     let (w, _keep) = hide_stdout();
     let mut w = std::io::BufWriter::new(w);
     let mut rng = Rng::new(seed ^ 0xC14);
-    // the program pool: (label, source, facts)
-    let mut pool: Vec<(String, String, Option<(usize, usize, usize, &'static str)>)> = Vec::new();
+    // the program pool: (label, source, facts); the facts come from a fresh process per program
+    let me = std::env::current_exe().unwrap();
+    let mut srcs: Vec<(String, String)> = Vec::new();
     if !skip_files {
-        for (name, src) in file_programs() {
-            let f = facts_of(&src);
-            pool.push((name, src, f));
-        }
+        srcs.extend(file_programs());
     }
-    while (pool.len() as u64) < n {
+    while (srcs.len() as u64) < n {
         let (label, src) = template(&mut rng);
-        let f = facts_of(&src);
-        pool.push((label.to_string(), src, f));
+        srcs.push((label.to_string(), src));
     }
+    let facts = pool(8, srcs.len(), |k| expect_child(&me, "<facts>", &srcs[k].1).0.ok().map(|e| (e.p, e.re, e.rt, e.class)));
+    let pool: Vec<(String, String, Option<(usize, usize, usize, &'static str)>)> =
+        srcs.into_iter().zip(facts).map(|((l, s), f)| (l, s, f)).collect();
     let mut dist: HashMap<String, u64> = HashMap::new();
     for (label, src, f) in pool.iter().take(n as usize) {
         let facts = match f {
